@@ -101,11 +101,14 @@ C08OK(e) ==
 
 (* ======================== C09: freeze ================================================================ *)
 SameOutputs(a, b) == Len(a) = Len(b) /\ \A k \in 1..Len(a) : a[k].digest = b[k].digest /\ a[k].kind = b[k].kind /\ a[k].dtype = b[k].dtype
+\* the width the REQUESTED qtype stands for (not what the implementation's qtype object says about itself)
+BitsOfQ(q) == IF q = "qint2" THEN 2 ELSE IF q = "qint4" THEN 4 ELSE 8
 PayloadOK(m) ==
   LET p == m.payload IN
   (m.q /\ m.wq # "none") =>
     /\ m.frozen /\ p.cls # "float" /\ p.qtype = m.wq /\ p.gs = m.gs
-    /\ p.payload_rows = CeilDiv(p.grouped_rows * p.bits, 8)                    \* ceil(rows x bits / 8) ...
+    /\ p.bits = BitsOfQ(m.wq)
+    /\ p.payload_rows = CeilDiv(p.grouped_rows * BitsOfQ(m.wq), 8)             \* ceil(rows x bits / 8) ...
     /\ p.payload_bytes = p.payload_rows * (p.grouped_numel \div p.grouped_rows)  \* ... x (numel / rows) bytes
     /\ p.scale_count = (IF p.gs = 0 THEN p.shape[1] ELSE p.grouped_numel \div p.gs)
     /\ (p.bits < 8 => p.zp_count = p.scale_count)
@@ -227,9 +230,23 @@ InputMomentumSig(e) ==
      (r.aq # "none") =>
        /\ ("in_new" \in DOMAIN r) => ScaleLaw(r.insc_before, r.in_new, r.insc_after, upd[i][1], 966367642, fmt)
        /\ ("out_new" \in DOMAIN r) => ScaleLaw(r.outsc_before, r.out_new, r.outsc_after, upd[i][2], MomInt(qargs.ms[1]), fmt)
+\* the recorded deviation and nothing else: a scale that is exactly 1.0 AFTER EARLIER UPDATES is re-initialised by the next batch
+\* (after = new) instead of averaged; every other update of the same step obeys the law
+ReinitIn(r, i) == ("in_new" \in DOMAIN r) /\ IsOne(r.insc_before) /\ upd[i][1] > 0
+ReinitOut(r, i) == ("out_new" \in DOMAIN r) /\ IsOne(r.outsc_before) /\ upd[i][2] > 0
+RecOKWithReinit(e, r, mm) ==
+  LET i == ModuleIndex(e, r.name) fmt == e.mods[i].dtype IN
+  (r.aq # "none") =>
+    /\ ("adopt" \in DOMAIN r) => SameS(r.insc_after, r.adopt) \/ NearS(r.insc_after, r.adopt, fmt)
+    /\ ("in_new" \in DOMAIN r) => IF ReinitIn(r, i) THEN FinS(r.in_new) /\ FinS(r.insc_after) /\ NearS(r.insc_after, r.in_new, fmt)
+                                   ELSE ScaleLaw(r.insc_before, r.in_new, r.insc_after, upd[i][1], mm, fmt)
+    /\ ("out_new" \in DOMAIN r) => IF ReinitOut(r, i) THEN FinS(r.out_new) /\ FinS(r.outsc_after) /\ NearS(r.outsc_after, r.out_new, fmt)
+                                    ELSE ScaleLaw(r.outsc_before, r.out_new, r.outsc_after, upd[i][2], mm, fmt)
+    /\ (("out_new" \in DOMAIN r) /\ upd[i][2] = 0) => ~r.out_saturates
 ScaleOneSig(e) ==
-  e.act = "CalibBatch" /\ e.outcome = "ok" /\
-  \E k \in 1..Len(e.calib) : (e.calib[k].aq # "none" /\ (IsOne(e.calib[k].insc_before) \/ IsOne(e.calib[k].outsc_before)))
+  /\ e.act = "CalibBatch" /\ e.outcome = "ok" /\ e.n_ctx = 1 /\ Len(qargs.ms) = 1
+  /\ \E k \in 1..Len(e.calib) : LET r == e.calib[k] IN r.aq # "none" /\ (ReinitIn(r, ModuleIndex(e, r.name)) \/ ReinitOut(r, ModuleIndex(e, r.name)))
+  /\ \A k \in 1..Len(e.calib) : RecOKWithReinit(e, e.calib[k], MomInt(qargs.ms[1]))
 
 (* ======================== bookkeeping =========================================================================== *)
 OpenAfter(e) ==
